@@ -539,4 +539,100 @@ theorem wf_endBlock {st : St} (hw : WF st) (time height : Int) : WF (endBlock st
     · exact sorted_del h1
     · exact h1
 
+/-! ### the feeder gate and the messages that do not touch prices -/
+
+theorem wf_of_prices_eq {st st' : St} (h : st'.prices = st.prices) (hw : WF st) : WF st' := by
+  unfold WF; rw [h]; exact hw
+
+theorem feederGate_ok {st : St} {signer : Bytes} (h : feederGate st signer = .ok ()) :
+    getFeeder st signer = some true := by
+  unfold feederGate at h
+  split at h
+  · cases h
+  · cases h
+  · assumption
+
+theorem feedPrice_ok {st st' : St} {signer : Bytes} {f : Feed} {t h : Int}
+    (hk : feedPrice st signer f t h = .ok st') :
+    getFeeder st signer = some true ∧ st' = setPrice st (f.toPrice signer t h) := by
+  unfold feedPrice at hk
+  cases hg : feederGate st signer with
+  | error e => rw [hg] at hk; cases hk
+  | ok u =>
+    rw [hg] at hk
+    simp only [bind, Except.bind] at hk
+    cases hk
+    exact ⟨feederGate_ok hg, rfl⟩
+
+theorem feedMultiple_ok {st st' : St} {signer : Bytes} {fs : List Feed} {t h : Int}
+    (hk : feedMultiple st signer fs t h = .ok st') :
+    getFeeder st signer = some true ∧
+      st' = fs.foldl (fun s f => setPrice s (f.toPrice signer t h)) st := by
+  unfold feedMultiple at hk
+  cases hg : feederGate st signer with
+  | error e => rw [hg] at hk; cases hk
+  | ok u =>
+    rw [hg] at hk
+    simp only [bind, Except.bind] at hk
+    cases hk
+    exact ⟨feederGate_ok hg, rfl⟩
+
+theorem foldl_setFeeder_prices (fs : List Bytes) (st : St) :
+    (fs.foldl (fun s a => setFeeder s a true) st).prices = st.prices := by
+  induction fs generalizing st with
+  | nil => rfl
+  | cons a fs ih => simp only [List.foldl_cons]; rw [ih]; rfl
+
+theorem foldl_removeFeeder_prices (fs : List Bytes) (st : St) :
+    (fs.foldl (fun s a => removeFeeder s a) st).prices = st.prices := by
+  induction fs generalizing st with
+  | nil => rfl
+  | cons a fs ih => simp only [List.foldl_cons]; rw [ih]; rfl
+
+/-- the messages and keeper calls that are not price writes leave the price store alone. -/
+theorem admin_prices (st : St) :
+    (∀ a act, (commit st (msgSetPriceFeeder st a act)).prices = st.prices) ∧
+    (∀ a, (commit st (msgDeletePriceFeeder st a)).prices = st.prices) ∧
+    (∀ auth fs, (commit st (msgAddPriceFeeders st auth fs)).prices = st.prices) ∧
+    (∀ auth fs, (commit st (msgRemovePriceFeeders st auth fs)).prices = st.prices) := by
+  refine ⟨?_, ?_, ?_, ?_⟩
+  · intro a act; unfold msgSetPriceFeeder; cases getFeeder st a <;> rfl
+  · intro a; unfold msgDeletePriceFeeder; cases getFeeder st a <;> rfl
+  · intro auth fs; unfold msgAddPriceFeeders
+    by_cases h : st.authority ≠ auth
+    · simp [h, commit]
+    · simp only [h, if_false, commit]; exact foldl_setFeeder_prices fs st
+  · intro auth fs; unfold msgRemovePriceFeeders
+    by_cases h : st.authority ≠ auth
+    · simp [h, commit]
+    · simp only [h, if_false, commit]; exact foldl_removeFeeder_prices fs st
+
+theorem wf_step {st : St} (hw : WF st) (op : Op) : WF (step st op) := by
+  cases op with
+  | setPrice p => exact wf_setPrice hw _ (Nat.mod_lt _ (by decide))
+  | removePrice a s ts => exact wf_removePrice hw a s ts
+  | feed signer f t h =>
+    show WF (commit st (feedPrice st signer f t h))
+    cases hk : feedPrice st signer f t h with
+    | error e => exact hw
+    | ok st' => show WF st'; rw [(feedPrice_ok hk).2]; exact wf_setPrice hw _ (toU64_lt t)
+  | feedMulti signer fs t h =>
+    show WF (commit st (feedMultiple st signer fs t h))
+    cases hk : feedMultiple st signer fs t h with
+    | error e => exact hw
+    | ok st' => show WF st'; rw [(feedMultiple_ok hk).2]; exact wf_feedFold hw signer fs t h
+  | endBlock t h => exact wf_endBlock hw t h
+  | setFeeder a act => exact wf_of_prices_eq ((admin_prices st).1 a act) hw
+  | deleteFeeder a => exact wf_of_prices_eq ((admin_prices st).2.1 a) hw
+  | addFeeders auth fs => exact wf_of_prices_eq ((admin_prices st).2.2.1 auth fs) hw
+  | removeFeeders auth fs => exact wf_of_prices_eq ((admin_prices st).2.2.2 auth fs) hw
+  | setInfo d i => exact wf_of_prices_eq rfl hw
+  | removeInfo d => exact wf_of_prices_eq rfl hw
+  | setParams p => exact wf_of_prices_eq rfl hw
+
+theorem wf_run {st : St} (hw : WF st) (ops : List Op) : WF (run st ops) := by
+  induction ops generalizing st with
+  | nil => exact hw
+  | cons op ops ih => exact ih (wf_step hw op)
+
 end Elys.Oracle
